@@ -176,6 +176,8 @@ func realMain() {
 			fmt.Println(f.V.Class(), f.V.Detail)
 			fmt.Println(string(f.Case))
 		}
+	case "soak15":
+		soak15Main(os.Args[2:])
 	case "trace15":
 		trace15Main(os.Args[2:])
 	case "selftest":
